@@ -347,6 +347,16 @@ def compare(case, obs, exp, hang=None):
             if got != want:
                 must.append((["C04"], "validate_integrity with credentials #%d: impl %s, specification+oracle %s (attribute at offset %d)" % (
                     k, json.dumps(got), json.dumps(want), plan["off"])))
+    # responses derived from a request (C16: class error, the request's method and id, ERROR-CODE, list)
+    er, orr = ea.get("resp") or {}, oa.get("resp")
+    if "success" in er and isinstance(orr, dict) and "panic" not in orr:
+        if orr.get("success", {}).get("hdr") != er["success"]:
+            asis.append("builder_success header: impl %s spec %s" % (json.dumps(orr.get("success"))[:150], json.dumps(er["success"])))
+            must.append((["C16x"], "builder_success: impl %s spec %s" % (json.dumps(orr.get("success"))[:150], json.dumps(er["success"]))))
+        for k in ("bad", "unk", "unk0"):
+            want, got = er[k], orr.get(k, {})
+            if got.get("hdr") != want["hdr"] or got.get("code") != want["code"] or got.get("unknown") != want["unknown"] or got.get("types") != want["types"]:
+                must.append((["C16"], "error response helper %s: impl %s spec %s" % (k, json.dumps(got)[:200], json.dumps(want)[:200])))
     # policing (C16)
     if "police" in oa and "police" in case:
         for k, got in enumerate(oa["police"]):
